@@ -287,7 +287,8 @@ class WrapGenLoop(LoopSpec):
         self.task, self.acc = task, acc
 
     def havoc(self, I, fr):
-        fr.locals[self.acc] = []
+        from contracts.negotiation import PriorList
+        fr.locals[self.acc] = PriorList(self.acc)
         I.ghost["mark"] = len(I.trace)
 
     def after_body(self, I, fr):
